@@ -47,7 +47,7 @@ pub fn run(ctx: &mut Ctx) {
             }
             let mut lines: Vec<String> = sels
                 .iter()
-                .map(|s| if r.chance(1, 6) { format!("~example.com##{}", s) } else { format!("##{}", s) })
+                .map(|s| if r.chance(1, 6) { format!("~example.com##{}", s) } else if r.chance(1, 8) { format!("#?#{}", s) } else { format!("##{}", s) })
                 .collect();
             // non-generic rules must not leak into the generic stores
             // rules with an action are never generic hide rules, whatever their locations
